@@ -740,6 +740,28 @@ def gen_life(rng) -> Dict[str, Any]:
     return {"cfg0": rng.choice([None, None, 65535, 65534, 65533, rng.randrange(1, 65536)]), "procs": procs}
 
 
+def boundary_lives() -> List[Dict[str, Any]]:
+    lamp = {"type": "Lightbulb", "opt": ["Brightness"], "vals": {"On": True}, "meta": {}, "desc": {}}
+    fan = {"type": sorted(SERVICES)[0], "opt": [], "vals": {}, "meta": {}, "desc": {}}
+    a = {"bridge": False, "accs": [{"name": "Lamp", "aid": 1, "services": [lamp]}]}
+    b = {"bridge": False, "accs": [{"name": "Lamp", "aid": 1, "services": [lamp, fan]}]}
+    return [
+        # a service is added to the RUNNING accessory and announced with config_changed(); the next process is
+        # started with exactly that configuration: the restart compares with the configuration of the previous
+        # start and counts the change a second time (Props: C18_cfg_life_runtime_change_counted_twice)
+        {"cfg0": None, "procs": [{"kind": "first", "cfg": a, "ops": [["mutate", "add-service", 0], ["configChanged"]]},
+                                 {"kind": "add-service", "cfg": b, "ops": []}]},
+        # the same at the wrap: 65534 -> 65535 (start) -> 1 (config_changed) -> 2 (restart)
+        {"cfg0": 65534, "procs": [{"kind": "first", "cfg": a, "ops": [["mutate", "add-service", 0], ["configChanged"], ["persist"]]},
+                                  {"kind": "add-service", "cfg": b, "ops": [["value", 0, 1, "On", False]]},
+                                  {"kind": "identical", "cfg": b, "ops": []}]},
+        # value changes, saves and config_changed() calls only: every restart keeps the number
+        {"cfg0": 65535, "procs": [{"kind": "first", "cfg": b, "ops": [["value", 0, 1, "On", False], ["persist"], ["configChanged"]]},
+                                  {"kind": "values", "cfg": b, "ops": [["configChanged"], ["configChanged"]]},
+                                  {"kind": "identical", "cfg": b, "ops": []}]},
+    ]
+
+
 def _life_obs(env, pf):
     with open(pf, "r", encoding="utf8") as fh:
         disk = json.load(fh)
@@ -1733,8 +1755,8 @@ def run(ctx: Ctx):
             st.sample({"restart_kind": kind, "c1": got["c1"], "c2": got["c2"], "hash_equal": got["h1"] == got["h2"]})
 
     # --- whole lives: several process lifetimes with runtime changes in between
-    for i in range(ctx.n(40, 500)):
-        life = gen_life(rng)
+    lives = boundary_lives() + [gen_life(rng) for _ in range(ctx.n(40, 500))]
+    for i, life in enumerate(lives):
         got = impl_life(m, life)
         oracle_life(ctx, life, got)
         lines.append({"layer": "advert", "op": "life", "cfg0": life["cfg0"], "ops": got["model_ops"]})
@@ -1749,7 +1771,7 @@ def run(ctx: Ctx):
             moved = got["starts"][k]["c"] != got["starts"][k - 1]["stop_c"]
             st.hit("outcome", "life-restart-" + ("after-runtime-restructuring-" if got["starts"][k - 1]["mutated_live"] else "")
                    + life["procs"][k]["kind"] + ("-moved" if moved else "-kept"))
-        if i == 0:
+        if i == 1:
             st.sample({"life_kinds": [p["kind"] for p in life["procs"]], "cfg0": life["cfg0"],
                        "ops": [o[0] for o in got["model_ops"]], "c#": [o["cfg"] for o in got["obs"]]})
 
